@@ -89,7 +89,8 @@ pub struct FunV { pub id: Ghost<int> }                   // Arc<Function>
 pub struct MutV { pub id: Ghost<int>, pub variable: RwLockM }   // Arc<Mut>; `variable` is the RwLock<Variable> of variable::Mut
 pub struct RwLockM { pub id: Ghost<int> }                // std::sync::RwLock<Variable>
 pub struct GuardM { pub content: Variable }              // RwLockWriteGuard<Variable>
-pub struct StructV { pub id: Ghost<int> }                // Arc<VariableMap>
+pub struct StructV { pub id: Ghost<int>, pub map: VarMap }   // Arc<VariableMap>
+pub struct VarMap { pub fields: Ghost<Map<Seq<char>, Variable>> }   // HashMap<Arc<str>, Variable>, viewed as a map from field names
 
 pub enum Variable {
     Bool(bool),
